@@ -1,9 +1,10 @@
 import Driver.OpsCore
 import Driver.OpsAlloc
+import Driver.OpsRoads
 import Driver.OpsSym
 namespace Driver
 
-def handlers : List Handler := [handleCore, handleAlloc, handleSym]
+def handlers : List Handler := [handleCore, handleAlloc, handleRoads, handleSym]
 
 def step (st : St) (line : String) : St × String :=
   match (line.trimAscii.toString.splitOn " ").filter (· ≠ "") with
